@@ -45,6 +45,8 @@ def run_property(pid, mod, tier, seed, t0):
     outside = 0
     for c in cases:
         for f in c.monitor:
+            if f["property"] == "*":
+                broken.append({"kind": "monitor-exception", "what": f"{c.name}: {f['detail']}", "case": c.meta})
             if f["property"] == pid:
                 if f.get("outside_quantifier"):
                     outside += 1          # configuration the property does not quantify over
